@@ -31,6 +31,12 @@ Recorded op list (flat, total, replayable without a PRNG):
   {"op":"app_config","app":A,"state":"ok|absent|invalid"}  natural 404 / 400
   {"op":"advance","dt":s}             the clock jumps
   {"op":"restart"}                    the monitor process is restarted
+  {"op":"conn_flap"}                  the monitor's ZooKeeper connection drops
+                                      and comes back, the session survives
+                                      (simkit.zk.SimZk.flap: SUSPENDED, the
+                                      client's watch callbacks reset with a
+                                      NONE event, CONNECTED; what the recipes
+                                      do about it is queued like any event)
 """
 
 import inspect
@@ -108,6 +114,24 @@ def _seq(instance):
 
 def _app_of(instance):
     return instance.rpartition('#')[0]
+
+
+def _single_watch(table, path, sid, watch):
+    """One entry per (session, callback) in a watch table of simkit.zk (a
+    list, the later registration is dropped)."""
+    path = zkmod._norm(path)                       # pylint: disable=W0212
+    entries = table.get(path)
+    if not entries:
+        return
+    seen = False
+    keep = []
+    for entry in entries:
+        if entry[0] == sid and entry[1] == watch:
+            if seen:
+                continue
+            seen = True
+        keep.append(entry)
+    table[path] = keep
 
 
 # ---------------------------------------------------------------------------
@@ -374,6 +398,9 @@ class World:
         self.stretch = {}
         self.ever_monitored = set()
         self.want = {}           # app -> configuration requested so far
+        self.flap_open = False
+        self.deleted_in_flap = set()
+        self.recreated_in_flap = set()
         self.fps = []
         self.nontrivial = 0
         self.died = 0
@@ -390,14 +417,16 @@ class World:
             'deadline_checks', 'deadline_checks_after_wait',
             'resumed_after_suspension', 'natural_404',
             'natural_400', 'external_spawn', 'kills', 'alerts',
-            'reconfigured')}
+            'reconfigured', 'conn_flaps', 'conn_flaps_budget_short',
+            'flap_events_queued', 'budget_binding_after_flap',
+            'budget_exhausted_after_flap', 'create_after_flap')}
         for kind in FAIL_KINDS:
             self.probes['rest_fail_' + kind] = 0
         self.faults = {k: 0 for k in (
             'rest_notfound', 'rest_badrequest', 'rest_validation',
             'rest_error_before', 'rest_lost_ack', 'watch_lag',
             'monitor_restart', 'clock_jump', 'instance_died',
-            'app_unconfigured')}
+            'app_unconfigured', 'conn_flap')}
 
     # ------------------------------------------------------------------
     def fail(self, sig, detail):
@@ -436,7 +465,7 @@ class World:
             told.mons = names
         self.log.ev('told-children', path, sorted(children))
 
-    def on_data(self, path, data, stat, event):
+    def on_data(self, path, data, stat, event, again=False):
         name = path.rpartition('/')[2]
         deleted = (event is not None and event.type == 'DELETED') or \
             stat is None
@@ -444,6 +473,15 @@ class World:
             # a suspension belongs to the monitor that was deleted
             self.told.susp_safe.pop(name, None)
             self.log.ev('told-deleted', name)
+            return
+        if again:
+            # the same watch hands over the version of the node it handed
+            # over last (nobody wrote to it): the monitor is told nothing
+            # new, nothing was (re)configured, the reference budget stays
+            # (never on the unchanged tree: not a reach probe)
+            self.probes['same_version_told_again'] = \
+                self.probes.get('same_version_told_again', 0) + 1
+            self.log.ev('told-again', name, stat.mzxid)
             return
         try:
             loaded = json.loads(data.decode())
@@ -472,7 +510,7 @@ class World:
         self.told.mons.add(name)
         self.told.bucket[name] = {'tok': 2.0 * count, 't': now,
                                   'rate': 2.0 * count / HOUR,
-                                  'cap': 2.0 * count}
+                                  'cap': 2.0 * count, 'flaps': 0}
         self.log.ev('told-config', name, count, policy)
 
     def on_alert(self, _alerts_dir, **kwargs):
@@ -504,6 +542,26 @@ class World:
             return bind if func is None else bind(func)
 
         client.ChildrenWatch = children_watch
+        # the kazoo client keeps the watch callbacks of a path in a set and
+        # the server one watch per session and path: a recipe that passes
+        # its callback again (as the recipes do when the connection is back)
+        # has not set a second watch
+        sid = client.client_id[0]
+        real_get, real_get_children = client.get, client.get_children
+
+        def get(path, watch=None):
+            result = real_get(path, watch)
+            if watch is not None:
+                _single_watch(world.zk.data_watches, path, sid, watch)
+            return result
+
+        def get_children(path, watch=None, include_data=False):
+            result = real_get_children(path, watch, include_data)
+            if watch is not None:
+                _single_watch(world.zk.child_watches, path, sid, watch)
+            return result
+
+        client.get, client.get_children = get, get_children
         appmonitor.context = types.SimpleNamespace(
             GLOBAL=types.SimpleNamespace(
                 zk=types.SimpleNamespace(conn=client), cell=CELL))
@@ -516,8 +574,13 @@ class World:
         world = self
 
         def bind(fun):
+            last = [None]            # version this watch handed over last
+
             def recorded(data, stat, event):
-                world.on_data(path, data, stat, event)
+                again = stat is not None and stat.mzxid == last[0]
+                if stat is not None:
+                    last[0] = stat.mzxid
+                world.on_data(path, data, stat, event, again)
                 return fun(data, stat, event)
             real_zkwatchers.ExistingDataWatch(client, path, recorded)
             return fun
@@ -705,8 +768,16 @@ class World:
                 if missing > math.floor(tokens + EPS) or \
                         rec['outcome'] != 'ok':
                     ev['nontrivial'] = True
+                flapped = ev['prompt'] and \
+                    (told.bucket.get(app) or {}).get('flaps', 0) > 0
+                if flapped:
+                    # decided with every consequence of a connection flap
+                    # delivered, in a budget epoch that began before it
+                    self.probes['create_after_flap'] += 1
                 if missing > math.floor(tokens + EPS):
                     self.probes['budget_binding'] += 1
+                    if flapped:
+                        self.probes['budget_binding_after_flap'] += 1
                 if sorted(self.live(app), key=_seq) != \
                         sorted(have + rec.get('created', []), key=_seq) \
                         and rec['outcome'] in ('ok', 'lost_ack'):
@@ -782,6 +853,9 @@ class World:
                 elif have < conf['count'] and \
                         told.tokens(app, ev['t0']) < 1.0:
                     self.probes['budget_exhausted'] += 1
+                    if ev['prompt'] and \
+                            (told.bucket.get(app) or {}).get('flaps', 0):
+                        self.probes['budget_exhausted_after_flap'] += 1
             if app in posted and told.susp_live.get(app) is not None and \
                     ev['t0'] >= told.susp_live[app] and \
                     not any(r['outcome'] in ('notfound', 'badrequest',
@@ -880,7 +954,9 @@ class World:
         if st['after'] >= LIVENESS_SLACK_EVALS:
             self.fail(
                 'C20:no-convergence' + (':monitor-config-not-watched'
-                                        if stale_cfg else ''),
+                                        if stale_cfg else '') +
+                (':via-recreated-while-rewatching-after-flap'
+                 if app in self.recreated_in_flap else ''),
                 '%s: target %d in ZooKeeper, %d live instances; diverged '
                 'since evaluation %d (%+d), every watch event delivered, no '
                 'failures, budget sufficient since %.3f; %d evaluations '
@@ -947,6 +1023,13 @@ class World:
         count = op.get('count')
         if count is None and not existed:
             return                    # (the API refuses a create without one)
+        if not existed and app in self.deleted_in_flap:
+            self.deleted_in_flap.discard(app)
+            if self._flap_window():
+                # deleted and created again while the monitor was still
+                # re-reading after a reconnect (provenance of the recorded
+                # finding, see known_findings.json)
+                self.recreated_in_flap.add(app)
         # what the administrator has asked for, by the update verb's own
         # contract: a key that is not sent keeps its value
         want = dict(self.want.get(app) or {'count': None, 'policy': None}) \
@@ -969,6 +1052,8 @@ class World:
         if self.zk.nodes.get(z.path.appmonitor(app)) is None:
             return
         self.want.pop(app, None)
+        if self._flap_window():
+            self.deleted_in_flap.add(app)
         masterapi.delete_appmonitor(self.admin, app)
         self.probes['monitor_deleted'] += 1
         self.told.susp_safe.pop(app, None)
@@ -1006,6 +1091,40 @@ class World:
         self.faults['monitor_restart'] += 1
         self.epoch += 1
 
+    def _flap_window(self):
+        if self.flap_open and (self.mon_client is None or
+                               not self.zk.pending(self._mon_sid())):
+            self.flap_open = False
+        return self.flap_open
+
+    def op_conn_flap(self, _op):
+        """The monitor's connection to ZooKeeper drops and comes back, the
+        session survives.  Nothing in the world changes and the monitor is
+        told nothing: the reference buckets and suspensions stay as they
+        are (no new epoch for the liveness clause either)."""
+        if self.mon_client is None:
+            return
+        sid = self._mon_sid()
+        before = self.zk.pending(sid)
+        if self.zk.flap(sid) is None:
+            return
+        # until everything the reconnect queued (the recipes' re-reads) has
+        # been delivered the monitor is re-establishing its watches
+        self.flap_open = True
+        self.faults['conn_flap'] += 1
+        self.probes['conn_flaps'] += 1
+        self.probes['flap_events_queued'] += self.zk.pending(sid) - before
+        now = self.clock.peek()
+        short = False
+        for name in sorted(self.told.bucket):
+            bucket = self.told.bucket[name]
+            bucket['flaps'] += 1
+            if self.told.tokens(name, now) < bucket['cap'] - 1.0:
+                short = True
+        if short:
+            # (a refill here would show)
+            self.probes['conn_flaps_budget_short'] += 1
+
 
 # ---------------------------------------------------------------------------
 # generation
@@ -1014,7 +1133,7 @@ OP_WEIGHTS = [
     ('eval', 30), ('deliver', 10), ('deliver_all', 6), ('kill', 18),
     ('spawn', 4), ('mon_set', 9), ('mon_del', 2.5), ('mon_bounce', 1.5),
     ('rest_fail', 5), ('app_config', 1.5), ('advance', 7), ('restart', 0.7),
-    ('churn', 3), ('scale_in', 2.5),
+    ('churn', 3), ('scale_in', 2.5), ('conn_flap', 2), ('flap_drained', 2),
 ]
 ADVANCES = [2.0, 30.0, 120.0, 299.0, 301.0, 600.0, 900.0, 1800.0, 3600.0,
             7200.0]
@@ -1027,6 +1146,7 @@ class Generator:
         self.sched = streams.get('sched')
         self.fault = streams.get('fault')
         self.follow = []
+        self.script = None       # an adaptive scenario in progress
         self.emitted = 0
         self.phase = 'main'
         self.rounds = 0
@@ -1043,6 +1163,11 @@ class Generator:
     def _next(self, world):
         if self.follow:
             return self.follow.pop(0)
+        if self.script is not None:
+            op = next(self.script, None)
+            if op is not None:
+                return op
+            self.script = None
         if self.phase == 'main':
             if self.emitted < self.config['n_ops']:
                 for _ in range(30):
@@ -1170,12 +1295,68 @@ class Generator:
             for _k in range(self.rng.choice([1, 1, 2, 3])):
                 self.follow.append({'op': 'kill', 'app': app,
                                     'which': self.rng.randint(0, 7)})
+            if self.fault.random() < 0.12:
+                self.follow.append({'op': 'conn_flap'})
             self.follow.extend([{'op': 'deliver_all'}, {'op': 'eval'}])
             if self.rng.random() < 0.3:
                 self.follow.append({'op': 'advance',
                                     'dt': self.rng.choice([5.0, 60.0,
                                                            400.0])})
         return {'op': 'deliver_all'}
+
+    def g_conn_flap(self, world):
+        return {'op': 'conn_flap'}
+
+    def g_flap_drained(self, world):
+        """Instances of one application keep dying until its monitor is
+        rate limited, then the monitor's connection flaps, then they keep
+        dying (staged, adaptive: the drain looks at the reference bucket)."""
+        apps = [a for a in world.apps if world.zk_monitor(a) is not None and
+                world.zk_monitor(a)[0] > 0]
+        if not apps:
+            return None
+        self.script = self._flap_drained(world, self.rng.choice(apps))
+        return next(self.script)
+
+    def _flap_drained(self, world, app):
+        rng = self.rng
+        prompt = [{'op': 'deliver_all'}, {'op': 'eval'}]
+
+        def kill():
+            return {'op': 'kill', 'app': app, 'which': rng.randint(0, 7)}
+
+        for op in prompt:
+            yield op
+        for _ in range(6):
+            mon = world.zk_monitor(app)
+            tok = world.told.tokens(app, world.clock.peek())
+            if mon is None or mon[0] <= 0 or tok is None:
+                return
+            if tok < 1.0:
+                break
+            for _k in range(max(1, min(mon[0], int(tok), 12))):
+                yield kill()
+            for op in prompt:
+                yield op
+        else:
+            return         # (failures pending, suspended, not configured)
+        if rng.random() < 0.6:
+            # a death the monitor cannot make up for: rate limited
+            yield kill()
+            for op in prompt:
+                yield op
+        if rng.random() < 0.3:
+            yield {'op': 'advance', 'dt': rng.choice([5.0, 60.0, 400.0])}
+        yield {'op': 'conn_flap'}
+        if self.sched.random() < 0.75:
+            yield {'op': 'deliver_all'}
+        else:
+            yield {'op': 'deliver', 'n': self.sched.choice([1, 2, 3, 5])}
+        for _ in range(rng.randint(1, 3)):
+            for _k in range(rng.choice([1, 1, 2])):
+                yield kill()
+            for op in prompt:
+                yield op
 
 
     def g_scale_in(self, world):
@@ -1256,7 +1437,10 @@ class MonitorSim(enginemod.Engine):
     )
     stub_components = (
         'ZooKeeper: simkit.zk (single copy, sessions, one-shot watches, '
-        'per-session ordered event queues; delivery lag is an op)',
+        'per-session ordered event queues; delivery lag is an op; a '
+        'connection flap is an op: state listeners see SUSPENDED then '
+        'CONNECTED, the watch callbacks of the client are reset with a NONE '
+        'event as kazoo does, nothing happens in between)',
         'clock (virtual); time.sleep of the loop is the simulator step',
         'restclient.post transport + flask/restplus glue of '
         'rest/api/instance.py (URL and payload parsing, exception -> HTTP '
@@ -1283,7 +1467,10 @@ class MonitorSim(enginemod.Engine):
             'naturally arising 404/400 (application unconfigured / invalid '
             'manifest), clock advances from 2 s to 2 h, watch-delivery lag '
             '(how many queued events the monitor session receives before '
-            'each evaluation), monitor process restarts; then a settle '
+            'each evaluation), monitor process restarts, flaps of the '
+            'monitor\'s ZooKeeper connection with the session surviving (also '
+            'staged: instances die until the monitor is rate limited, the '
+            'connection flaps, instances keep dying); then a settle '
             'suffix with failures stopped and prompt delivery in which the '
             'clock is advanced to the instant the reference budget '
             'suffices.  Every evaluation of the real loop is checked.  '
@@ -1308,7 +1495,10 @@ class MonitorSim(enginemod.Engine):
             'non-negativity from the statement; burst (cap) 2*target, full '
             'bucket at every (re)configuration event delivered to the '
             'monitor (any write to the monitor node, same count or not) and '
-            'at process start, only acknowledged creations charged (failed '
+            'at process start (a connection flap is neither: no write, '
+            'nothing new is delivered; the same watch handing over the '
+            'version it handed over last does not refill the reference), '
+            'only acknowledged creations charged (failed '
             'and lost-ack creations are not), refill continues while '
             'suspended, 300 s suspension after 404/400/424 from the code '
             '(sproc/appmonitor.py:32-36,80-97,116-119,144-162,254-260); no '
